@@ -349,10 +349,15 @@ class NormalizationContext(AbstractHashQueueContext):
     def tsx_32bit_global_correction(self, qid, event: TraceEvent) -> dict:
         if "TS1" in event["args"]:
             args = event["args"]
+            # the event ts belongs to the start of its phase (see tsx_32bit_local_correction), so
+            # count epochs with that counter and take off the epochs already added locally before it
+            ref_cycle = int(args[NormalizationContext._get_ref_ts(event["name"])])
+            local_epochs = ref_cycle >> 32
             ovc, drift, tofix = self.get_overflow_count(qid,
                                                         str(event["args"]["jobhash"]),
                                                         event["ts"],
-                                                        int(event["args"]["TS1"]))
+                                                        ref_cycle - (local_epochs << 32))
+            ovc -= local_epochs
             aiulog.log(aiulog.TRACE, "OVC: DRIFT:", event["name"], ovc, drift, tofix, self.frequency_minmax)
 
             prev = -(1 << 48)  # set something very small to cover for some negative overflow epochs to happen
